@@ -234,192 +234,6 @@ theorem rrun_first (cfg : RCfg) (segs : List Bytes) (p P : Parser)
       · have hb : (p'.state == PState.complete) = false := by simpa using hpc
         simp only [hb, Bool.false_eq_true, if_false] at hf
         have hne : (p'.state != PState.complete) = true := by simpa using hpc
-        have h1 : wseg cfg s x = { s with request := p' } := by
-          simp only [wseg, hph, hrq, hp, hne, if_true]
-        rw [wrun, h1, ih p' hf hpc { s with request := p' } hph rfl]
-
-/-- the keep-alive pipeline parser over the pieces of one follow-up request -/
-theorem wrun_later (cfg : WCfg) (segs : List Bytes) (p P : Parser) (k : Nat)
-    (hf : Forward.feedUntilComplete Forward.pcfg p segs = .ok (P, [])) (hc : P.state = .complete)
-    (hnc : p.state ≠ .complete) (hka : isKeepAlive P = true)
-    (s : WSt) (hph : s.phase = .routed) (hrt : s.route = some k) (hrk : isKeepAlive s.request = true)
-    (hpipe : s.pipe = some p ∨ (s.pipe = none ∧ p = init .request)) :
-    wrun cfg s segs = { s with pipe := none, out := s.out ++ [cfg.respond k P], calls := s.calls ++ [(k, P)] } := by
-  induction segs generalizing p s with
-  | nil =>
-    simp only [Forward.feedUntilComplete, Except.ok.injEq, Prod.mk.injEq] at hf
-    rw [hf.1] at hnc; exact absurd hc hnc
-  | cons x xs ih =>
-    unfold Forward.feedUntilComplete at hf
-    cases hp : parse Forward.pcfg p x with
-    | error e => simp [hp] at hf
-    | ok p' =>
-      simp only [hp] at hf
-      have hgd : s.pipe.getD (init .request) = p := by
-        rcases hpipe with h | ⟨h, rfl⟩ <;> simp [h]
-      by_cases hpc : p'.state = .complete
-      · simp only [hpc, beq_self_eq_true, if_true, Except.ok.injEq, Prod.mk.injEq] at hf
-        obtain ⟨rfl, rfl⟩ := hf
-        simp only [wrun, wseg, hph, hrt, hrk, Bool.not_true, Bool.false_eq_true, if_false, hgd, hp, hpc,
-          beq_self_eq_true, if_true, hka]
-      · have hb : (p'.state == PState.complete) = false := by simpa using hpc
-        simp only [hb, Bool.false_eq_true, if_false] at hf
-        have h1 : wseg cfg s x = { s with pipe := some p' } := by
-          simp only [wseg, hph, hrt, hrk, Bool.not_true, Bool.false_eq_true, if_false, hgd, hp, hb]
-        rw [wrun, h1, ih p' hf hpc { s with pipe := some p' } hph hrt hrk (.inl rfl)]
-
-theorem wrun_laters (cfg : WCfg) (k : Nat) (xs : List Bytes) (Ps : List Parser) (segss : List (List Bytes))
-    (hl : All₂ WebLaterOk xs Ps) (hc : All₂ Cuts segss xs)
-    (s : WSt) (hph : s.phase = .routed) (hrt : s.route = some k) (hrk : isKeepAlive s.request = true)
-    (hpipe : s.pipe = none) :
-    wrun cfg s segss.flatten = { s with out := s.out ++ Ps.map (cfg.respond k), calls := s.calls ++ Ps.map (k, ·) } := by
-  induction hl generalizing segss s with
-  | nil => cases hc; simp [wrun]
-  | @cons x P xs Ps hx _ ih =>
-    cases hc with
-    | @cons segs _ segss' _ hcx hcs =>
-      have h1 := wrun_later cfg segs (init .request) P k (feed_cuts hx.1 hcx) (oneReq_spec hx.1).2.1
-        init_not_complete hx.2 s hph hrt hrk (.inr ⟨hpipe, rfl⟩)
-      rw [List.flatten_cons, wrun_append, h1,
-        ih segss' hcs { s with pipe := none, out := s.out ++ [cfg.respond k P], calls := s.calls ++ [(k, P)] }
-          hph hrt hrk rfl]
-      simp [List.append_assoc, hpipe]
-
-/-- **web server, segment level** -/
-theorem wrun_requests (cfg : WCfg) (x₁ : Bytes) (P₁ : Parser) (k : Nat) (xs : List Bytes) (Ps : List Parser)
-    (segs₁ : List Bytes) (segss : List (List Bytes))
-    (h1 : WebFirstOk cfg x₁ P₁ k) (hl : All₂ WebLaterOk xs Ps) (hc1 : Cuts segs₁ x₁) (hc : All₂ Cuts segss xs) :
-    wrun cfg {} (segs₁ ++ segss.flatten) =
-      { phase := .routed, request := P₁, route := some k, pipe := none,
-        out := (P₁ :: Ps).map (cfg.respond k), calls := (P₁ :: Ps).map (k, ·) } := by
-  obtain ⟨ho, hw, hws, hu, hr, hka⟩ := h1
-  have f := wrun_first cfg segs₁ (init .request) P₁ k (feed_cuts ho hc1) (oneReq_spec ho).2.1
-    init_not_complete hw hws hu hr {} rfl rfl
-  rw [wrun_append, f, wrun_laters cfg k xs Ps segss hl hc _ rfl rfl hka rfl]
-  simp
-
-
-/-! ## reverse proxy: routes answered by the plugin itself -/
-namespace Px.Persist
-open Px Px.Parser Px.Reverse
-
-/-- in every plugin the first matching route (if any) is a dynamic route whose `handle_route`
-    returns a literal response -/
-def litOnly (m : Nat → Bool) (t : Table) : Bool :=
-  t.all (fun p => match firstMatch m p with
-    | none => true
-    | some (.dynamic _ (.literal _)) => true
-    | _ => false)
-
-/-- the literal responses of the matching routes, in plugin order -/
-def litResps (m : Nat → Bool) (t : Table) : List Bytes :=
-  t.filterMap (fun p => match firstMatch m p with
-    | some (.dynamic _ (.literal r)) => some r
-    | _ => none)
-
-theorem routeLoop_lit (cfg : Reverse.Cfg) (m : Nat → Bool) (pick : Nat → Nat) (t : Table) (i : Nat) (s : Reverse.St)
-    (needs : Bool) (h : litOnly m t = true) :
-    routeLoop cfg m pick i t s needs =
-      ({ s with client := { s.client with buffer := s.client.buffer ++ litResps m t } }, needs, none) := by
-  induction t generalizing i s with
-  | nil => simp [routeLoop, litResps]
-  | cons p ps ih =>
-    simp only [litOnly, List.all_cons, Bool.and_eq_true] at h
-    have hps : litOnly m ps = true := h.2
-    unfold routeLoop
-    cases hf : firstMatch m p with
-    | none =>
-      simp only []
-      rw [ih _ _ hps]
-      simp [litResps, hf]
-    | some r =>
-      have h1 := h.1
-      rw [hf] at h1
-      cases r with
-      | «static» pat urls => simp at h1
-      | dynamic pat res =>
-        cases res with
-        | url u => simp at h1
-        | raises e => simp at h1
-        | literal resp =>
-          simp only [routeAct]
-          rw [ih _ _ hps]
-          simp [litResps, hf, Conn.queue, List.append_assoc]
-
-theorem handleRequest_lit (cfg : Reverse.Cfg) (m : Nat → Bool) (pick : Nat → Nat) (ok : Bool) (t : Table)
-    (req : Parser) (s : Reverse.St) (hp : req.path.isSome = true) (h : litOnly m t = true) :
-    handleRequest cfg m pick ok t req s =
-      ⟨{ s with client := { s.client with buffer := s.client.buffer ++ litResps m t } }, false, none⟩ := by
-  unfold handleRequest
-  have : req.path.isNone = false := by
-    cases hpp : req.path <;> simp [hpp] at hp ⊢
-  simp only [this, Bool.false_and, Bool.false_eq_true, if_false, routeLoop_lit cfg m pick t 0 s false h]
-
-theorem onRequestComplete_lit (cfg : Reverse.Cfg) (m : Nat → Bool) (pick : Nat → Nat) (ok : Bool) (t : Table)
-    (req : Parser) (s : Reverse.St) (hp : req.path.isSome = true) (hu : Px.Url.utf8Valid (Reverse.webPath req) = true)
-    (hm : anyMatch m t = true) (h : litOnly m t = true) :
-    onRequestComplete cfg m pick ok t req s =
-      ⟨{ s with client := { s.client with buffer := s.client.buffer ++ litResps m t } }, false, none⟩ := by
-  unfold onRequestComplete
-  rw [if_neg (by rw [hu]; simp), if_pos hm]
-  exact handleRequest_lit cfg m pick ok t req s hp h
-
-theorem rrun_append (cfg : RCfg) (s : RSt) (a b : List REv) : rrun cfg s (a ++ b) = rrun cfg (rrun cfg s a) b := by
-  induction a generalizing s with
-  | nil => rfl
-  | cons x xs ih => simp only [List.cons_append, rrun]; exact ih _
-
-/-- first request of a reverse-proxied connection, answered by the plugin(s) -/
-def RevFirstOk (cfg : RCfg) (x : Bytes) (P : Parser) : Prop :=
-  oneReq x = some P ∧ isWebRequest P = true ∧ isWebsocketUpgrade P = false ∧ P.path.isSome = true ∧
-  Px.Url.utf8Valid (webPath P) = true ∧ anyMatch (cfg.matchPat (webPath P)) cfg.table = true ∧
-  litOnly (cfg.matchPat (webPath P)) cfg.table = true ∧ isKeepAlive P = true
-
-def RevLaterOk (cfg : RCfg) (x : Bytes) (P : Parser) : Prop :=
-  oneReq x = some P ∧ P.path.isSome = true ∧ litOnly (cfg.matchPat (revPath P)) cfg.table = true ∧
-  isKeepAlive P = true
-
-/-- what the plugin(s) answer to a parsed request -/
-def revAnswer (cfg : RCfg) (first : Bool) (P : Parser) : List Bytes :=
-  litResps (cfg.matchPat (if first then webPath P else revPath P)) cfg.table
-
-theorem rrun_first (cfg : RCfg) (segs : List Bytes) (p P : Parser)
-    (hf : Forward.feedUntilComplete Forward.pcfg p segs = .ok (P, [])) (hc : P.state = .complete)
-    (hnc : p.state ≠ .complete) (hw : isWebRequest P = true) (hws : isWebsocketUpgrade P = false)
-    (hpa : P.path.isSome = true) (hu : Px.Url.utf8Valid (webPath P) = true)
-    (hm : anyMatch (cfg.matchPat (webPath P)) cfg.table = true)
-    (hl : litOnly (cfg.matchPat (webPath P)) cfg.table = true)
-    (s : RSt) (hph : s.phase = .first) (hrq : s.request = p) :
-    rrun cfg s (segs.map .cseg) =
-      { s with phase := .routed, request := P, handled := s.handled + 1,
-               rv := { s.rv with client := { s.rv.client with buffer := s.rv.client.buffer ++ revAnswer cfg true P } } } := by
-  induction segs generalizing p s with
-  | nil =>
-    simp only [Forward.feedUntilComplete, Except.ok.injEq, Prod.mk.injEq] at hf
-    rw [hf.1] at hnc; exact absurd hc hnc
-  | cons x xs ih =>
-    unfold Forward.feedUntilComplete at hf
-    cases hp : parse Forward.pcfg p x with
-    | error e => simp [hp] at hf
-    | ok p' =>
-      simp only [hp] at hf
-      by_cases hpc : p'.state = .complete
-      · simp only [hpc, beq_self_eq_true, if_true, Except.ok.injEq, Prod.mk.injEq] at hf
-        obtain ⟨rfl, rfl⟩ := hf
-        have hr : rfirst cfg { s with request := p' } p' =
-            { s with phase := .routed, request := p', handled := s.handled + 1,
-                     rv := { s.rv with client := { s.rv.client with buffer := s.rv.client.buffer ++ revAnswer cfg true p' } } } := by
-          unfold rfirst onRequestComplete
-          simp only [hu, Bool.not_true, Bool.and_false, Bool.false_eq_true, if_false, hm, if_true, Bool.not_false,
-            Bool.true_and, handleRequest_lit cfg.rv _ _ true cfg.table p' s.rv hpa hl, afterHandle, Nat.sub_self,
-            List.replicate_zero, List.append_nil, hph]
-          simp [revAnswer]
-        simp only [List.map_cons, List.map_nil, rrun, rstep, hph, hrq, hp, hpc, bne_self_eq_false, Bool.false_eq_true,
-          if_false, hw, hws, Bool.not_true, Bool.or_self]
-        simpa using hr
-      · have hb : (p'.state == PState.complete) = false := by simpa using hpc
-        simp only [hb, Bool.false_eq_true, if_false] at hf
-        have hne : (p'.state != PState.complete) = true := by simpa using hpc
         have h1 : rstep cfg s (.cseg x) = { s with request := p' } := by
           simp only [rstep, hph, hrq, hp, hne, if_true]
           simp
@@ -463,5 +277,39 @@ theorem rrun_later (cfg : RCfg) (segs : List Bytes) (p P : Parser)
           simp only [rstep, hph, hrk, Bool.not_true, Bool.false_eq_true, if_false, hgd, hp, hb]
           simp
         rw [List.map_cons, rrun, h1, ih p' hf hpc { s with pipe := some p' } hph hrk (.inl rfl)]
+
+theorem rrun_laters (cfg : RCfg) (xs : List Bytes) (Ps : List Parser) (segss : List (List Bytes))
+    (hl : All₂ (RevLaterOk cfg) xs Ps) (hc : All₂ Cuts segss xs)
+    (s : RSt) (hph : s.phase = .routed) (hrk : isKeepAlive s.request = true) (hpipe : s.pipe = none) :
+    rrun cfg s (segss.flatten.map .cseg) =
+      { s with handled := s.handled + Ps.length,
+               rv := { s.rv with client := { s.rv.client with
+                 buffer := s.rv.client.buffer ++ (Ps.map (revAnswer cfg false)).flatten } } } := by
+  induction hl generalizing segss s with
+  | nil => cases hc; simp [rrun]
+  | @cons x P xs Ps hx _ ih =>
+    cases hc with
+    | @cons segs _ segss' _ hcx hcs =>
+      obtain ⟨ho, hpa, hlit, hka⟩ := hx
+      have h1 := rrun_later cfg segs (init .request) P (feed_cuts ho hcx) (oneReq_spec ho).2.1
+        init_not_complete hpa hlit hka s hph hrk (.inr ⟨hpipe, rfl⟩)
+      rw [List.flatten_cons, List.map_append, rrun_append, h1, ih segss' hcs]
+      · simp [List.append_assoc, hpipe, Nat.add_assoc, Nat.add_comm 1]
+      · exact hph
+      · exact hrk
+      · rfl
+
+/-- **reverse proxy, segment level**: every request is answered by the plugin(s) themselves -/
+theorem rrun_requests (cfg : RCfg) (x₁ : Bytes) (P₁ : Parser) (xs : List Bytes) (Ps : List Parser)
+    (segs₁ : List Bytes) (segss : List (List Bytes))
+    (h1 : RevFirstOk cfg x₁ P₁) (hl : All₂ (RevLaterOk cfg) xs Ps) (hc1 : Cuts segs₁ x₁) (hc : All₂ Cuts segss xs) :
+    rrun cfg {} ((segs₁ ++ segss.flatten).map .cseg) =
+      { phase := .routed, request := P₁, pipe := none, handled := 1 + Ps.length,
+        rv := { client := { buffer := revAnswer cfg true P₁ ++ (Ps.map (revAnswer cfg false)).flatten } } } := by
+  obtain ⟨ho, hw, hws, hpa, hu, hm, hlit, hka⟩ := h1
+  have f := rrun_first cfg segs₁ (init .request) P₁ (feed_cuts ho hc1) (oneReq_spec ho).2.1
+    init_not_complete hw hws hpa hu hm hlit {} rfl rfl
+  rw [List.map_append, rrun_append, f, rrun_laters cfg xs Ps segss hl hc _ rfl hka rfl]
+  simp [List.append_assoc]
 
 end Px.Persist
